@@ -1369,12 +1369,24 @@ def _calculate_divisions(
         other = ToSeriesIndex(other)
 
     try:
-        divisions, mins, maxes, has_nulls = compute(
-            new_collection(RepartitionQuantiles(other, npartitions, upsample=upsample)),
-            new_collection(other).map_partitions(M.min),
-            new_collection(other).map_partitions(M.max),
-            new_collection(other).isna().any(),
-        )
+        try:
+            divisions, mins, maxes, has_nulls = compute(
+                new_collection(
+                    RepartitionQuantiles(other, npartitions, upsample=upsample)
+                ),
+                new_collection(other).map_partitions(M.min),
+                new_collection(other).map_partitions(M.max),
+                new_collection(other).isna().any(),
+            )
+        except IndexError:
+            # The partition quantiles need one key that is not missing; treat
+            # a key without values like the key of an empty frame
+            mins, maxes, has_nulls = compute(
+                new_collection(other).map_partitions(M.min),
+                new_collection(other).map_partitions(M.max),
+                new_collection(other).isna().any(),
+            )
+            divisions = pd.Series([np.nan] * (npartitions + 1))
     except TypeError as e:
         # When there are nulls and a column is non-numeric, a TypeError is sometimes raised as a result of
         # 1) computing mins/maxes above, 2) every null being switched to NaN, and 3) NaN being a float.
